@@ -262,6 +262,8 @@ func runC13(c *core.Ctx) {
 			c.Violation("csv log|date-depends-on-time-zone", fmt.Sprintf("TZ=%s: %s", zc.zone, bad), caseDoc{Files: files, Args: args, Env: map[string]string{"TZ": zc.zone}, Observed: resDoc(res)})
 		}
 	}
+	// selection by instants that differ only in the fraction of a second (shared with C06)
+	c06SubSecond(c, [][]string{{"csv", "log"}})
 	jobs, deaths := pool.Stats()
 	c.Count("l2_jobs", jobs)
 	c.Count("l2_process_deaths", deaths)
